@@ -1029,6 +1029,13 @@ impl InnerLocustDB {
         }
     }
 
+    /// Wakes the WAL flush thread so that it notices `stop()` without waiting for its 1 s poll interval.
+    #[cfg(feature = "verif")]
+    pub fn verif_wake_wal_thread(&self) {
+        let _guard = self.pending_wal_flushes.0.lock().unwrap();
+        self.pending_wal_flushes.1.notify_all();
+    }
+
     #[cfg(feature = "verif")]
     pub fn verif_wal_size(&self) -> u64 {
         *self.wal_size.0.lock().unwrap()
